@@ -25,12 +25,9 @@ HERE = os.path.dirname(os.path.abspath(__file__))
 
 # Genuine deviations of the unchanged code from the statement, reported in the final message of the
 # build; the integrator moves them to known_findings.json or commits a fix.
-PENDING_FINDINGS = {
-    'ctype:qualified-void':
-        "c:type loses the qualifier of a const/volatile void pointee: 'const void *p' is written "
-        "c:type=\"void*\" (Transformer._create_complete_source_type returns 'void' before looking at "
-        "type_qualifier)",
-}
+# (none at present: the qualified-void c:type finding was repaired by /repo 1f72dc6 and is judged by the
+# ordinary c:type oracle again.)
+PENDING_FINDINGS = {}
 
 # ------------------------------------------------------------------ include GIRs (generated)
 HDR = '''<?xml version="1.0"?>
@@ -408,7 +405,7 @@ def base_spelling(b):
 
 def oracle_ctype(t, is_param, written):
     """'the original C spelling kept as c:type': the written c:type, read back as a C type, is the
-    declared type.  Returns 'ok' | 'outside' | ('void-qual', ...) | ('bad', why)"""
+    declared type.  Returns 'ok' | 'outside' | ('bad', why)"""
     b, levels = flat(t, is_param)
     name = base_spelling(b)
     if name is None:
@@ -421,8 +418,6 @@ def oracle_ctype(t, is_param, written):
     want = (name, qset(b.get('q', 0)), [qset(x) for x in levels])
     if got == want:
         return 'ok'
-    if b['k'] == 'void' and b.get('q', 0) and got == (name, set(), want[2]):
-        return ('void-qual', written)
     return ('bad', 'c:type %r reads back as %r, declared %r' % (written, got, want))
 
 
@@ -512,11 +507,8 @@ class Judge(object):
                 self.cnt.hit('oracle:ctype:outside')
             elif v == 'ok':
                 self.cnt.hit('oracle:ctype:ok')
-            elif v[0] == 'void-qual':
-                self.cnt.hit('oracle:ctype:void-qualifier-dropped')
-                self.fail('ctype:qualified-void',
-                          'c:type %r written for %s type %s: the qualifier of the void pointee is lost'
-                          % (v[1], pos, json.dumps(t)), {'kind': 'type', 'case': case})
+                if flat(t, is_param)[0]['k'] == 'void' and flat(t, is_param)[0].get('q', 0):
+                    self.cnt.hit('oracle:ctype:ok:qualified-void')
             else:
                 self.fail('ctype:' + kkey, '%s: %s (declared %s)' % (pos, v[1], json.dumps(t)),
                           {'kind': 'type', 'case': case})
